@@ -236,6 +236,80 @@ func Syms[E Scalar](v *T, name string, n int) []E {
 }
 
 // IntIn is a symbolic int with lo <= x <= hi assumed.
+// Data returns n elements named name_i: solver variables, or - when the case says "concrete": true - a fixed
+// pattern of small positive and negative values (large instances, whose purpose is their size: a path per
+// data-dependent branch of several thousand elements is out of reach, the native run on the pattern is not).
+func Data[E Scalar](v *T, name string, n int) []E {
+	if !(v.Has("concrete") && v.CBool("concrete")) {
+		return Syms[E](v, name, n)
+	}
+	out := make([]E, n)
+	var zero E
+	for i := range out {
+		k := i%5 + 1
+		neg := i%2 == 1
+		switch any(zero).(type) {
+		case bool:
+			out[i] = any(i%3 == 0).(E)
+		case float32:
+			f := float32(k) * 1.5
+			if neg {
+				f = -f
+			}
+			out[i] = any(f).(E)
+		case float64:
+			f := float64(k) * 1.5
+			if neg {
+				f = -f
+			}
+			out[i] = any(f).(E)
+		default:
+			out[i] = patternInt[E](k, neg)
+		}
+	}
+	return out
+}
+
+func patternInt[E Scalar](k int, neg bool) E {
+	var zero E
+	switch any(zero).(type) {
+	case int8:
+		if neg {
+			return any(int8(-k)).(E)
+		}
+		return any(int8(k)).(E)
+	case int16:
+		if neg {
+			return any(int16(-k)).(E)
+		}
+		return any(int16(k)).(E)
+	case int32:
+		if neg {
+			return any(int32(-k)).(E)
+		}
+		return any(int32(k)).(E)
+	case int64:
+		if neg {
+			return any(int64(-k)).(E)
+		}
+		return any(int64(k)).(E)
+	case int:
+		if neg {
+			return any(-k).(E)
+		}
+		return any(k).(E)
+	case uint8:
+		return any(uint8(k)).(E)
+	case uint16:
+		return any(uint16(k)).(E)
+	case uint32:
+		return any(uint32(k)).(E)
+	case uint64:
+		return any(uint64(k)).(E)
+	}
+	return zero
+}
+
 func (v *T) IntIn(name string, lo, hi int) int {
 	x := Sym[int](v, name)
 	if _, ok := v.raw(name); !ok {
